@@ -332,6 +332,191 @@ def _subnet_helper(router: ast.ClassDef):
         raise ValueError("Router.ip_is_in_router_interface_subnet: not `first interface whose network contains the address -> True (enabled_only unset)`")
 
 
+# ------------------------------------------------------------------------------------------ session managers: who is the next hop
+SESS = "simulator/system/core/session_manager.py"
+ARPA = "self.software_manager.arp."
+
+
+def _details(cls_name: str, fn: ast.FunctionDef) -> str:
+    """`resolve_outbound_transmission_details`, unicast branch -> a DProg term (the ORDER of the stateful ARP look-ups is kept)."""
+    W = f"{cls_name}.resolve_outbound_transmission_details"
+    top = _code(fn.body)
+    txt = [ast.unparse(x) for x in top]
+    if "outbound_network_interface = None" not in txt or "dst_mac_address = None" not in txt:
+        raise ValueError(f"{W}: interface / MAC do not start as None")
+    split = [x for x in top if isinstance(x, ast.If) and ast.unparse(x.test) == "isinstance(dst_ip_address, IPv4Network)"]
+    if len(split) != 1 or top[-2] is not split[0] or not isinstance(top[-1], ast.Return):
+        raise ValueError(f"{W}: not `if isinstance(dst, IPv4Network): … else: …` followed by the final return")
+    if txt.index("dst_mac_address = None") > top.index(split[0]) or txt.index("outbound_network_interface = None") > top.index(split[0]):
+        raise ValueError(f"{W}: interface / MAC are reset after the branch")
+    fin = top[-1]
+
+    def is_final(r: ast.Return) -> bool:
+        return isinstance(r.value, ast.Tuple) and [ast.unparse(e) for e in r.value.elts[:3]] == ["outbound_network_interface", "dst_mac_address", "dst_ip_address"]
+
+    def is_none(r: ast.Return) -> bool:
+        return isinstance(r.value, ast.Tuple) and [ast.unparse(e) for e in r.value.elts[:3]] == ["None", "None", "dst_ip_address"]
+    if not is_final(fin):
+        raise ValueError(f"{W}: the final return is {ast.unparse(fin)[:80]}")
+    tgt = {"dst_ip_address": "Tgt.dst", "route.next_hop_ip_address": "Tgt.nextHop"}
+
+    def simple(s: ast.stmt, route: bool):
+        """(constructor prefix) for an assignment from an ARP look-up, else None"""
+        t = ast.unparse(s)
+        for var, ctor, getter, gwget in (("dst_mac_address", "setMac", "get_arp_cache_mac_address", "get_default_gateway_mac_address"),
+                                         ("outbound_network_interface", "setIfc", "get_arp_cache_network_interface", "get_default_gateway_network_interface")):
+            for a, lt in tgt.items():
+                if t == f"{var} = {ARPA}{getter}({a})":
+                    if a.startswith("route.") and not route:
+                        raise ValueError(f"{W}: `route` may be None at: {t}")
+                    return f"DProg.{ctor} {lt}"
+            if t == f"{var} = {ARPA}{gwget}()":
+                return f"DProg.{ctor} Tgt.gateway"
+        return None
+
+    def blk(stmts: List[ast.stmt], env: dict, route: bool) -> str:
+        stmts = _code(stmts)
+        if not stmts:
+            raise ValueError(f"{W}: fell off the end")
+        s, rest = stmts[0], stmts[1:]
+        t = ast.unparse(s)
+        if isinstance(s, ast.Return):
+            if is_final(s):
+                return "DProg.ret"
+            if is_none(s):
+                return "DProg.retNone"
+            raise ValueError(f"{W}: return not known: {t[:100]}")
+        if isinstance(s, ast.Assign) and len(s.targets) == 1 and isinstance(s.targets[0], ast.Name) and s.targets[0].id.startswith("use_") \
+                and isinstance(s.value, ast.Constant) and isinstance(s.value.value, bool):
+            return blk(rest, dict(env, **{s.targets[0].id: s.value.value}), route)
+        c = simple(s, route)
+        if c:
+            return f"({c} {blk(rest, env, route)})"
+        if t == "route = self.node.route_table.find_best_route(dst_ip_address)":
+            if not rest or not isinstance(rest[0], ast.If) or ast.unparse(rest[0].test) not in ("not route", "route"):
+                raise ValueError(f"{W}: find_best_route is not followed by a test of `route`")
+            i = rest[0]
+            pos, neg = (i.orelse, i.body) if ast.unparse(i.test) == "not route" else (i.body, i.orelse)
+            return f"(DProg.ifRoute {blk(list(pos) + rest[1:], env, True)} {blk(list(neg) + rest[1:], env, False)})"
+        if isinstance(s, ast.For):
+            ok = (ast.unparse(s.iter) == "self.node.network_interfaces.values()" and ast.unparse(s.target) == "network_interface" and not s.orelse
+                  and len(s.body) == 1 and isinstance(s.body[0], ast.If) and not s.body[0].orelse
+                  and ast.unparse(s.body[0].test) in ("dst_ip_address in network_interface.ip_network and network_interface.enabled",
+                                                      "network_interface.enabled and dst_ip_address in network_interface.ip_network"))
+            inner = _code(s.body[0].body) if ok else []
+            if not ok or not inner or not isinstance(inner[-1], ast.Break):
+                raise ValueError(f"{W}: loop is not `first enabled interface whose network holds dst: …; break`")
+            return f"(DProg.ifOnLink {blk(inner[:-1] + rest, env, route)} {blk(rest, env, route)})"
+        if isinstance(s, ast.If):
+            tt = ast.unparse(s.test)
+            if tt == "dst_mac_address":
+                return f"(DProg.ifMac {blk(list(s.body) + rest, env, route)} {blk(list(s.orelse) + rest, env, route)})"
+            neg = tt.startswith("not ")
+            v = tt[4:] if neg else tt
+            if v in env:
+                return blk(list(s.body if env[v] != neg else s.orelse) + rest, env, route)
+        raise ValueError(f"{W}: statement not in the translation table: {t[:120]}")
+    return blk(list(split[0].orelse) + [fin], {}, False)
+
+
+def _outbound(sm: ast.ClassDef, rsm: ast.ClassDef, harp: ast.ClassDef) -> str:
+    W = "resolve_outbound_network_interface"
+
+    def loop(s: ast.stmt, arg: str) -> bool:
+        return (isinstance(s, ast.For) and ast.unparse(s.iter) == "self.node.network_interfaces.values()" and not s.orelse and len(s.body) == 1
+                and isinstance(s.body[0], ast.If) and not s.body[0].orelse
+                and ast.unparse(s.body[0].test) in (f"{arg} in {ast.unparse(s.target)}.ip_network and {ast.unparse(s.target)}.enabled",
+                                                    f"{ast.unparse(s.target)}.enabled and {arg} in {ast.unparse(s.target)}.ip_network")
+                and [ast.unparse(x) for x in _code(s.body[0].body)] == [f"return {ast.unparse(s.target)}"])
+
+    def base(stmts: List[ast.stmt], gwvar: bool) -> str:
+        stmts = _code(stmts)
+        if not stmts:
+            return "OProg.retNone"
+        s, rest = stmts[0], stmts[1:]
+        t = ast.unparse(s)
+        if loop(s, "dst_ip_address"):
+            return f"(OProg.localLoop {base(rest, gwvar)})"
+        if t == "default_gateway = getattr(self.node.config, 'default_gateway', None)":
+            return base(rest, True)
+        if (isinstance(s, ast.If) and gwvar and not s.orelse and [ast.unparse(x) for x in _code(s.body)] == ["return None"]
+                and ast.unparse(s.test) in ("default_gateway and IPv4Address(dst_ip_address) == default_gateway",
+                                            "default_gateway and dst_ip_address == default_gateway")):
+            return f"(OProg.gwSelfNone {base(rest, gwvar)})"
+        if t == f"return {ARPA}get_default_gateway_network_interface()":
+            return "OProg.retGwIfc"
+        if t in ("return None", "return"):
+            return "OProg.retNone"
+        raise ValueError(f"SessionManager.{W}: statement not in the translation table: {t[:120]}")
+
+    def rtr(stmts: List[ast.stmt], route: bool) -> str:
+        stmts = _code(stmts)
+        if not stmts:
+            return "OProg.retNone"
+        s, rest = stmts[0], stmts[1:]
+        t = ast.unparse(s)
+        if t == "network_interface = super().resolve_outbound_network_interface(dst_ip_address)":
+            return f"(OProg.callBase Tgt.dst {rtr(rest, route)})"
+        if t == "network_interface = super().resolve_outbound_network_interface(route.next_hop_ip_address)" and route:
+            return f"(OProg.callBase Tgt.nextHop {rtr(rest, route)})"
+        if isinstance(s, ast.If) and ast.unparse(s.test) in ("not network_interface", "network_interface"):
+            pos, neg = (s.orelse, s.body) if ast.unparse(s.test).startswith("not") else (s.body, s.orelse)
+            return f"(OProg.ifNic {rtr(list(pos) + rest, route)} {rtr(list(neg) + rest, route)})"
+        if t == "route = self.node.route_table.find_best_route(dst_ip_address)" and rest and isinstance(rest[0], ast.If) \
+                and ast.unparse(rest[0].test) in ("not route", "route"):
+            i = rest[0]
+            pos, neg = (i.orelse, i.body) if ast.unparse(i.test) == "not route" else (i.body, i.orelse)
+            return f"(OProg.ifRoute {rtr(list(pos) + rest[1:], True)} {rtr(list(neg) + rest[1:], False)})"
+        if t == "return network_interface":
+            return "OProg.ret"
+        if t in ("return None", "return"):
+            return "OProg.retNone"
+        raise ValueError(f"RouterSessionManager.{W}: statement not in the translation table: {t[:120]}")
+    b = base(find_method(sm, W).body, False)
+    r = rtr(find_method(rsm, W).body, False)
+    # the two guarded getters of HostARP
+    guards = []
+    for name, getter in (("get_default_gateway_mac_address", "self.get_arp_cache_mac_address"),
+                         ("get_default_gateway_network_interface", "self.get_arp_cache_network_interface")):
+        gb = _code(find_method(harp, name).body)
+        if not (len(gb) == 1 and isinstance(gb[0], ast.If) and not gb[0].orelse
+                and [ast.unparse(x) for x in _code(gb[0].body)] == [f"return {getter}({GW})"]):
+            raise ValueError(f"HostARP.{name}: not one guarded `return {getter}(<default gateway>)`")
+        guards.append(_bool_test(gb[0].test, {GW: "gwSet", "self.software_manager.node.has_enabled_network_interface": "hasEnabled"}, f"HostARP.{name}"))
+    return (f"/-- SessionManager.resolve_outbound_network_interface, translated -/\ndef baseOut : OProg :=\n  {b}\n"
+            f"/-- RouterSessionManager.resolve_outbound_network_interface, translated -/\ndef routerOut : OProg :=\n  {r}\n"
+            f"/-- HostARP.get_default_gateway_mac_address looks the gateway up iff -/\ndef gwMacGuard (gwSet hasEnabled : Bool) : Bool :=\n  {guards[0]}\n"
+            f"/-- HostARP.get_default_gateway_network_interface looks the gateway up iff -/\ndef gwIfcGuard (gwSet hasEnabled : Bool) : Bool :=\n  {guards[1]}\n")
+
+
+def _session() -> str:
+    sm = class_def(parse(SESS), "SessionManager")
+    rsm = class_def(parse(ROUTER), "RouterSessionManager")
+    harp = class_def(parse(HOSTN), "HostARP")
+    hd = _details("SessionManager", find_method(sm, "resolve_outbound_transmission_details"))
+    rd = _details("RouterSessionManager", find_method(rsm, "resolve_outbound_transmission_details"))
+    return ("""/-- whose address a look-up is for -/
+inductive Tgt | dst | gateway | nextHop
+deriving DecidableEq, Repr
+/-- `resolve_outbound_transmission_details`, unicast branch, as a program over the STATEFUL ARP look-ups (their order is kept):
+`setMac t` = `dst_mac_address = arp.<MAC look-up of t>`, `setIfc t` = `outbound_network_interface = arp.<interface look-up of t>`,
+`ifOnLink` = the loop "first enabled interface whose network holds the destination … break", `ifMac` = `if dst_mac_address`,
+`ifRoute` = `route = find_best_route(dst)` + the test of `route`, `ret` = the final return, `retNone` = `return None, None, …` -/
+inductive DProg | ret | retNone | setMac (t : Tgt) (k : DProg) | setIfc (t : Tgt) (k : DProg)
+  | ifOnLink (a b : DProg) | ifMac (a b : DProg) | ifRoute (a b : DProg)
+deriving DecidableEq, Repr
+/-- `resolve_outbound_network_interface`: `localLoop` = return the first enabled interface whose network holds the argument,
+`gwSelfNone` = the argument is the default gateway itself → None, `retGwIfc` = return arp.get_default_gateway_network_interface(),
+`callBase t` = `network_interface = super().resolve_outbound_network_interface(t)`, `ifNic` / `ifRoute` tests -/
+inductive OProg | ret | retNone | retGwIfc | localLoop (k : OProg) | gwSelfNone (k : OProg)
+  | callBase (t : Tgt) (k : OProg) | ifNic (a b : OProg) | ifRoute (a b : OProg)
+deriving DecidableEq, Repr
+"""
+            f"/-- SessionManager.resolve_outbound_transmission_details (hosts), unicast branch, translated -/\ndef hostDetails : DProg :=\n  {hd}\n"
+            f"/-- RouterSessionManager.resolve_outbound_transmission_details, unicast branch, translated -/\ndef routerDetails : DProg :=\n  {rd}\n"
+            + _outbound(sm, rsm, harp))
+
+
 def emit() -> str:
     rt = parse(ROUTER)
     harp = class_def(parse(HOSTN), "HostARP")
@@ -353,6 +538,7 @@ def emit() -> str:
         f"/-- callers of add_arp_cache_entry in the source tree, none passes `override` -/\ndef addEntryCallers : Nat := {_no_override_callers()}\n",
         _send_request(arp),
         _handlers(harp, rarp),
+        _session(),
     ]
     return """namespace Primaite.Gen.ForwardArp
 /-- what `find_best_route` gave the look-up: nothing, a table entry (its next hop), the default route (its next hop), or it raised -/
